@@ -1277,7 +1277,8 @@ def m_iter_adapter(I, st, args, dty, site):
     arg = ('r', I.alloc(s, item)) if by_ref else item
     r = _closure_probe(I, s, clo, [arg], site)
     if by_ref and it is not None and it[0] == 'it' and it[1] == 'chars' and it[3] == 0:
-        return [(st, ('it', 'sub', it))]      # yields a subsequence of the chars of it[2]
+        kind = 'take_while' if site['callee'].endswith('take_while') else 'filter'
+        return [(st, ('it', 'sub', it, (kind, clo[1] if clo is not None and clo[0] in ('clo', 'fn') else None)))]      # yields a subsequence (take_while: a prefix) of the chars of it[2]
     return [(st, ('it', 'unk', None, None))]
 
 
@@ -1340,6 +1341,11 @@ def m_count(I, st, args, dty, site):
         cc = char_count(I, st, it[2][2])
         v = I.top(st, ty_of_name('usize'), 'count', lo=0, hi=D.get_iv(st, cc)[1])
         D.rel_set(st, v[1], cc, '<=')
+        if len(it) > 3 and it[3] is not None:
+            # provenance: the number of leading (take_while) / all (filter) chars of that string which satisfy the closure
+            if not hasattr(I, 'prefix_count'):
+                I.prefix_count = {}
+            I.prefix_count[v[1]] = (it[2][2].ident, it[3][1], it[3][0])
         return [(st, v)]
     return [(st, I.top(st, ty_of_name('usize'), 'count', lo=0, hi=USIZE_MAX))]
 
